@@ -16,7 +16,7 @@ def run(tier: str) -> int:
     scns = []
     for i in range(n):
         for j, c in enumerate(convs):
-            scns.append({"id": f"p{i}", "conv": c, "keys": [4, 7][(i + j) % 2], "offset_first": i % 3 == 0})
+            scns.append({"id": f"p{i}", "conv": c, "keys": [4, 7][(i + j) % 2], "offset_first": i % 3 == 0, "twice": i % 4 == 1})
     recs = pmap(drv.exec_pair, scns)
     rejects, consumed, wall = validate_traces("CrossTrace", "CrossTrace", recs, tag=f"c09-{tier}", heap="4g")
     chk.add_traces(recs, rejects)
